@@ -20,7 +20,10 @@ def patches(pid, d):
         out = []
         for m in sorted(glob.glob(os.path.join(V, "seeded", "*", "meta.json"))):
             meta = json.load(open(m))
-            if pid in (meta.get("property"), *meta.get("also", [])):
+            props_of = (meta.get("property"),) if os.environ.get("MUTATE_PRIMARY_ONLY") else (meta.get("property"), *meta.get("also", []))
+            if meta.get("confirmed") is False:
+                continue
+            if pid in props_of:
                 d = os.path.dirname(m)
                 reb = os.path.join(d, "patch.rebased.diff")     # /repo HEAD moved since the seed was written
                 out.append((os.path.basename(d), reb if os.path.exists(reb) else os.path.join(d, "patch.diff")))
